@@ -201,7 +201,7 @@ def run(ctx):
     pairs = [(i, i) for i in range(n)]
     allp = [(i, j) for i in range(n) for j in range(n) if i != j]
     if ctx.quick():
-        pairs += rnd.sample(allp, 700)
+        pairs += rnd.sample(allp, 300)
     else:
         pairs += rnd.sample(allp, 9000)
     terms, refs = [], []
@@ -223,13 +223,13 @@ def run(ctx):
             if m["dict"][j] in "TF":
                 mem.append((i, j, m["dict"][j] == "T", m["set"][j] == "T"))
     if ctx.quick():
-        mem = rnd.sample(mem, min(len(mem), 400))
+        mem = rnd.sample(mem, min(len(mem), 200))
     for (i, j, d, s) in mem:
         if d != s:
             ctx.finding("member:dict-vs-set", "dict and set membership disagree for key %s probe %s" % (pool[i]["v"], pool[j]["v"]), {"x": pool[i]["v"], "y": pool[j]["v"]})
         terms.append("(CMember %d %d %s)" % (i, j, cbool(d)))
         refs.append({"kind": "member", "key": pool[i]["v"], "probe": pool[j]["v"], "found": d})
-    sq = sorts[:120] if ctx.quick() else sorts[:1500]
+    sq = sorts[:70] if ctx.quick() else sorts[:1500]
     for s in sq:
         out = "None" if s.get("out") is None else "(Some %s)" % nats(s["out"])
         if s.get("out") is not None and any(p < 0 for p in s["out"]):
@@ -237,7 +237,7 @@ def run(ctx):
             continue
         terms.append("(CSort %s %s %s)" % (nats(s["items"]), cbool(s["reverse"]), out))
         refs.append({"kind": "sort", "keys": [pool[i]["v"] for i in s["items"]], "keyed": s["keyed"], "reverse": s["reverse"], "out": s.get("out")})
-    mq = minmaxes[:200] if ctx.quick() else minmaxes[:2500]
+    mq = minmaxes[:120] if ctx.quick() else minmaxes[:2500]
     for s in mq:
         failed = s.get("err") == "err"
         out = "None" if "out" not in s else "(Some %d%%nat)" % s["out"]
